@@ -7,6 +7,8 @@ open BeffVerif
 partial def decVal : Sexp → Option JsVal
   | .atom "null" => some .null
   | .atom "undef" => some .undef
+  -- a hole of a sparse array: every read of it (`input[i]`) gives `undefined`, which is what the model works with
+  | .atom "hole" => some .undef
   | .atom "fn" => some .func
   | .atom "sym" => some .sym
   | .list [.atom "b", .atom "true"] => some (.bool true)
